@@ -1424,8 +1424,9 @@ func FunExpr(query *Query, current Map, expr *sqlparser.FuncExpr, opts ...ExprOp
 			var err error
 			query.wg.Add(1)
 			go func() {
+				defer query.wg.Done()
+				defer query.reportPanic()
 				rs, err = function(query, current, nil, slice)
-				query.wg.Done()
 			}()
 			return &rs, err
 		}
@@ -1439,6 +1440,7 @@ func FunExpr(query *Query, current Map, expr *sqlparser.FuncExpr, opts ...ExprOp
 				return nil, e
 			}
 			go func() {
+				defer query.reportPanic()
 				_, err := function(query, current, nil, slice)
 				if err != nil {
 					if query.options.errors != nil {
@@ -1459,13 +1461,14 @@ func FunExpr(query *Query, current Map, expr *sqlparser.FuncExpr, opts ...ExprOp
 			}
 			query.wg.Add(1)
 			go func() {
+				defer query.wg.Done()
+				defer query.reportPanic()
 				_, err := function(query, current, nil, slice)
 				if err != nil {
 					if query.options.errors != nil {
 						query.options.errors(err)
 					}
 				}
-				query.wg.Done()
 			}()
 			return Ommit(true), nil
 		}
@@ -1894,6 +1897,17 @@ func (query *Query) Exec() (result []any, err error) {
 		return slice, nil
 	}
 	return []any{rs}, nil
+}
+
+// Deferred by the goroutines of ASYNC, SPIN and SPINASYNC calls: a panicking
+// function is reported to the unreported errors handler instead of killing
+// the process
+func (query *Query) reportPanic() {
+	if r := recover(); r != nil {
+		if query.options.errors != nil {
+			query.options.errors(RecoveredError(r))
+		}
+	}
 }
 
 // Converts a recovered panic value to an error
